@@ -36,6 +36,21 @@ type smrInput struct {
 	Seed    int64     `json:"seed"`
 	Points  string    `json:"points"` // coarse | fine
 	Duel    bool      `json:"duel,omitempty"` // one key: writers putting and deleting the very same item
+	Tall    bool      `json:"tall,omitempty"` // writers' level generators seeded so that their first nodes are tall
+}
+
+// tallSeed returns the first seed >= base whose generator makes the first two nodes of a writer at
+// least one level high (the level generator draws until a value >= 0.25 comes up)
+func tallSeed(base int64) int64 {
+	for s := base; ; s++ {
+		r := rand.New(rand.NewSource(s))
+		a := r.Float32()
+		for r.Float32() < 0.25 {
+		}
+		if a < 0.25 && r.Float32() < 0.25 {
+			return s
+		}
+	}
 }
 
 type smrResult struct {
@@ -65,7 +80,13 @@ func (a *Arena) Known(p unsafe.Pointer) bool {
 
 func smrGen(r *rand.Rand) *smrInput {
 	if r.Intn(3) == 0 {
-		return &smrInput{Cmp: r.Intn(2), Sticky: []int{0, 30, 70}[r.Intn(3)], Seed: r.Int63(), Points: "fine", Duel: true}
+		in := &smrInput{Cmp: r.Intn(2), Sticky: []int{0, 30, 70}[r.Intn(3)], Seed: r.Int63(), Points: "fine", Duel: true}
+		if r.Intn(2) == 0 {
+			// tall nodes and parking inside the path search: an equal item seen at an upper level and
+			// deleted before the search reaches level 0
+			in.Points, in.Tall, in.Sticky = "finest", true, []int{50, 70, 85}[r.Intn(3)]
+		}
+		return in
 	}
 	in := &smrInput{Cmp: r.Intn(2), Sticky: []int{0, 20, 50}[r.Intn(3)], Seed: r.Int63(), Points: []string{"coarse", "fine", "fine"}[r.Intn(3)]}
 	return in
@@ -146,13 +167,19 @@ func smrChild(casePath string) {
 		}
 	}
 	for i, w := range e.ws {
-		w.VerifSeed(in.Seed + int64(i))
+		if in.Tall {
+			w.VerifSeed(tallSeed((in.Seed + int64(i)*7919) & 0xffffff))
+		} else {
+			w.VerifSeed(in.Seed + int64(i))
+		}
 	}
 	e.quiesce()
 	nt := len(in.Progs)
 	var spoints []int
 	if in.Points == "fine" {
 		spoints = []int{skiplist.VerifPtInsPub, skiplist.VerifPtInsOwn, skiplist.VerifPtInsLink, skiplist.VerifPtInsCheck, skiplist.VerifPtSdCas, skiplist.VerifPtFPH}
+	} else if in.Points == "finest" {
+		spoints = []int{skiplist.VerifPtInsPub, skiplist.VerifPtInsOwn, skiplist.VerifPtInsLink, skiplist.VerifPtInsCheck, skiplist.VerifPtInsSucc, skiplist.VerifPtSdCas, skiplist.VerifPtFPH, skiplist.VerifPtFP2, skiplist.VerifPtSdLoad}
 	} else {
 		spoints = []int{skiplist.VerifPtInsPub}
 	}
